@@ -89,6 +89,21 @@ Theorem C06_markers_candidate_is_marker_cut :
   filter ismark (lines (markers_transform ismark t i e)) = cut (filter ismark (lines t)) i e.
 Proof. exact markers_candidate_is_cut. Qed.
 
+(* The loop the pass really runs works on bytes: the verdict sees the current text, an accepted candidate replaces it, and
+   the count given to advance_on_success is re-counted from the new text.  For every verdict function (of step, lines and
+   cursor) and every text it computes exactly what the instance-level loop computes on the list of lines, log included -
+   so the four theorems at the top of this file are statements about the bytes of the file ... *)
+Theorem C06_lines_byte_loop_is_instance_loop :
+  forall (test : nat -> list text -> bst -> bool) (t : text),
+  breduce test t = as_bytes (reduce test (lines t)).
+Proof. exact breduce_is_reduce. Qed.
+
+(* ... in particular, for a monotone test the final text is exactly the required lines, in order. *)
+Theorem C06_lines_final_text_monotone :
+  forall (req : text -> bool) (t : text),
+  exists log, breduce (ok_mono req) t = Some (concat (filter req (lines t)), log).
+Proof. exact breduce_exact. Qed.
+
 Example C06_example_lines :
   lines (lines_transform [97;10;98;10;10;99]%N 1 3) = [[97;10];[99]]%N /\
   filter (fun l => N.eqb (hd 0%N l) 35) (lines (markers_transform (fun l => N.eqb (hd 0%N l) 35) [35;10;98;10;35;49;10;35]%N 1 2))
